@@ -21,6 +21,8 @@ CHECKS = {
          "held on everything observed: all chains of 18 constructor slots over 7 leaves to depth 2 (quick) / 3 (thorough) at the five sites in both modes, every primitive spelling, seeded deeper trees; mismatches equal to a recorded defect model are KNOWN-FINDINGs, anything else is a VIOLATION", "4 C05"),
  "C06": ("translation_validation", "runtime monitor: identical struct/enum definitions compiled against real serde_derive/serde_json (oracle crate) and fed to the real CLI; decoded keys/literals compared name by name",
          "per generated definition the emitted key/literal list equals what serde_json actually printed; 9 rename_all x 18 field-attribute variants x 13 identifier shapes (fields) and 6 variant-attribute variants x 10 shapes (variants); 1 oracle build in quick, 8 in thorough", "4 C06"),
+ "C07": ("exploration", "runtime monitor: generated type-dependency graphs with ground-truth reachability; declared type set parsed from types.ts and compared",
+         "held on everything observed: every edge context (18) x root kind (7) systematically plus 300 (quick) / 4 000 (thorough) random graphs of 2-10 types over 1-5 files with cycles, unreachable, non-serde and error-arm-only decoys, both modes", "4 C07"),
  "C20": ("exploration", "runtime monitor: real ordering routines driven over enumerated graphs, each result judged by a closure/SCC oracle; crash = replayed and bisected",
          "held on every call observed: exhaustive over all digraphs (self-loops included) on <=3 nodes in quick and <=4 nodes in thorough, x all requested subsets x repeated fresh hash seeds, plus random graphs to 12 nodes; evidence reports distinct result orders seen per case", "4 C20"),
 }
